@@ -22,6 +22,14 @@ func description(b []byte) ([]byte, error) {
 
 	lines := bytes.Split(b, []byte{'\n'})
 
+	// A line of blanks is an empty line: it says nothing about the indentation
+	// of the text.
+	for i := range lines {
+		if len(bytes.Trim(lines[i], " \t")) == 0 {
+			lines[i] = lines[i][:0]
+		}
+	}
+
 	prefix := longestWhitespacePrefix(lines)
 	for i := 0; i < len(lines); i++ {
 		lines[i] = bytes.TrimPrefix(lines[i], prefix)
